@@ -4,7 +4,7 @@ CONSTANTS
   Vals = {1, 2}
   MaxLen = 5
   EmitAll = FALSE
-  PushShapes <- Shapes
+  PushShapes <- ReducedShapes
 INVARIANTS Inv HistoryDeterminesState Emit
 PROPERTIES PopRestores SetGlobalLands SetIndexShared PushTransparent
 CHECK_DEADLOCK FALSE
